@@ -15,7 +15,8 @@ Full statement (DESIGN 4/C01), for every template `pt` and every `to_single_wave
         ∀ c ∈ P.chanNames, ∀ t, 0 ≤ t → t < P.dur → prog.sample c t = some ((P.val c).at t)
 
 Proved here (`_partial`, see notes/C01.md for the table): the statement
-* for `Stage3` — constant, function, table, point atoms and `AtomicMultiChannelPT`s of them, composed by sequencing,
+* for `Stage3` — constant, function, table, point atoms, `AtomicMultiChannelPT`s of them and `ArithmeticAtomicPT`s
+  of such atoms (12 of the 13 node kinds), composed by sequencing,
   repetition, indexed iteration, mapping, `ParallelChannelPT` and `ArithmeticPT` (scalar) in any nesting — exactly
   outside the class of PF-11 (`compile_correct_partial`), under any global transformation
   (`compile_correct_under_trafo`, `compile_correct_global_trafo_partial`) and for every `to_single_waveform` set
@@ -24,15 +25,15 @@ Proved here (`_partial`, see notes/C01.md for the table): the statement
   junctions inside reversed parts (`compile_correct_reversal_partial`);
 always for programs all of whose pieces have positive duration and *given* that the denotation exists
 (`denoteTop … = .ok P`; its existence is not proved: the denotation additionally demands affine function expressions
-that evaluate, and equal channel sets of sequenced parts).  `ArithmeticAtomicPT`, wrappers in atomic context and time
+that evaluate, and equal channel sets of sequenced parts).  Wrappers in atomic context and time
 reversal over table-like atoms are covered by the correspondence + judge only; `builder_correct_over_atoms` shows
 that the builder part of the proof does not depend on which atoms are used.
 -/
 namespace QP.Props.C01
 open QP.PT
 
-/-- **compile correctness (partial)**: for a stage-3 template (`Stage3`: constant, function, table atoms and
-`AtomicMultiChannelPT`s of them, composed by sequencing, repetition, indexed iteration, mapping,
+/-- **compile correctness (partial)**: for a stage-3 template (`Stage3`: constant, function, table, point atoms,
+`AtomicMultiChannelPT`s of them and `ArithmeticAtomicPT`s of such atoms, composed by sequencing, repetition, indexed iteration, mapping,
 `ParallelChannelPT` and `ArithmeticPT` with a scalar, in any nesting) **outside the class of the open finding
 PF-11** (`inPF11 … = false`: no channel overwritten by a `ParallelChannelPT` is touched by a transformation of an
 enclosing template), the compiled program, sampled anywhere in `[0, duration)`, yields on every channel of the
